@@ -221,9 +221,9 @@ func pickIdx(n, max int) []int {
 // Auxiliary leaves (named in AuxiliaryLeaves) are substituted as well, but only a panic is a violation for them:
 // they are hints that are not part of the statement (see DESIGN.md).
 var AuxiliaryLeaves = map[string]string{
-	"Proof.size":         "permutation / lookup proofs: the domain size hint; size+1 is not an admissible (power-of-two) statement size",
+	"Proof.size":             "permutation / lookup proofs: the domain size hint; size+1 is not an admissible (power-of-two) statement size",
 	"ProofLookupVector.size": "same",
-	"OpeningProof.index": "fri opening: redundant copy of the position argument, which is what the verifier uses",
+	"OpeningProof.index":     "fri opening: redundant copy of the position argument, which is what the verifier uses",
 }
 
 func isAux(path string) bool {
